@@ -153,22 +153,34 @@ func runDetChart(res *core.Result, cs *chartSpec, rng *rand.Rand, root string, i
 		j.compare("repeat", j.again(), j.again)
 		res.Evals++
 	}
-	// (1b) engine.Render repeatedly on ONE loaded chart object (values tree copied per call: templates may `set`)
+	// (1a) the SAME chart object installed (dry-run) again and again: a render must not leave traces
+	// in the chart object (defaults are copied for every render)
+	core.Guard(res, "repeated dry-run install of one chart object", func() {
+		ch := fresh()
+		same := func() snap { return renderInstall(ch, cs.Vals, cs.Flags, nil) }
+		for i := 0; i < 3; i++ {
+			j.compare("re-render-of-the-same-chart-object", same(), same)
+			res.Stat("same_object_installs_compared", 1)
+			res.Evals++
+		}
+	})
+	// (1b) ToRenderValues + engine.Render repeatedly on ONE loaded chart object
 	core.Guard(res, "engine.Render of a generated chart", func() {
 		ch, top, err := prepareEngine(cs)
 		if err != nil {
-			if !cs.Feat.Fails {
-				res.Add("generator-expectation", "ToRenderValues failed on a generated chart", "err=%v | %s", err, j.witness())
-			}
+			res.Add("generator-expectation", "ProcessDependencies failed on a generated chart", "err=%v | %s", err, j.witness())
 			return
 		}
 		ref := engineRender(ch, top, false)
+		if ref.Err != cs.Feat.Fails {
+			res.Add("generator-expectation", "engine render outcome differs from what the generator intended", "err=%q intended-failure=%v | %s", ref.Text, cs.Feat.Fails, j.witness())
+		}
 		for i := 0; i < p.repeats; i++ {
 			s := engineRender(ch, top, false)
 			res.Stat("engine_renders_compared", 1)
 			res.Evals++
 			if k, d := engDiff(ref, s); k != "" {
-				res.Add("nondet-engine-render", k+" differs between two engine.Render calls on the same chart object and values", "%s | %s", d, j.witness())
+				res.Add("nondet-engine-render", k+" differs between two ToRenderValues+engine.Render runs on the same chart object", "%s | %s", d, j.witness())
 				break
 			}
 			for k, v := range s.Files {
@@ -312,7 +324,7 @@ func runConcChart(res *core.Result, cs *chartSpec, idx int, can *canaries, verbo
 	seqNondet := func(n int) bool {
 		for i := 0; i < n; i++ {
 			if k, d := engDiff(ref, engineRender(ch, top, false)); k != "" {
-				res.Add("nondet-engine-render", k+" differs between two engine.Render calls on the same chart object and values", "%s | %s", d, j.witness())
+				res.Add("nondet-engine-render", k+" differs between two ToRenderValues+engine.Render runs on the same chart object", "%s | %s", d, j.witness())
 				return true
 			}
 		}
@@ -326,13 +338,7 @@ func runConcChart(res *core.Result, cs *chartSpec, idx int, can *canaries, verbo
 		wg.Add(1)
 		go func(g int) {
 			defer wg.Done()
-			t := top
-			if g%2 == 1 { // odd goroutines compute their own render values from a separately loaded copy
-				if _, own, err := prepareEngine(cs); err == nil {
-					t = own
-				}
-			}
-			outs[g] = engineRender(ch, t, false) // the chart object is shared, the values tree is copied per call
+			outs[g] = engineRender(ch, top, false) // ONE chart object shared by all goroutines; render values composed per call
 		}(g)
 	}
 	wg.Wait()
